@@ -1,7 +1,7 @@
 (* C03 — Sequence runs its commands strictly one after another, in order.
    Model: Model/Conc.v (interleaving transition system, every schedule); the property as an
-   executable predicate over the ghost event log: Spec/ConcSpec.v (sequences_ok, seq_walk, sq_step);
-   proofs: Proof/ConcC03.v. *)
+   executable predicate over the ghost event log: Spec/ConcSpec.v (sequences_ok, seq_walk, sq_step,
+   no_drop_before_cancel, sent_from); proofs: Proof/ConcC03.v. *)
 From Coq Require Import List Bool Arith.
 Import ListNotations.
 From BT Require Import Model.Conc Spec.ConcSpec Proof.ConcC03.
@@ -18,11 +18,19 @@ Section C03.
      the elements of the k-th sequence message passed to Update) follows the pattern of sq_step: elements
      strictly in order, nil entries skipped, the next element started only after the previous element's
      message - a nil result included, and for a batch result the message of every member, each after that
-     member returned - was taken by the event loop *)
+     member returned - was taken by the event loop (ERecv) or, once the context has been cancelled, given up
+     by its blocked Send (EDrop: the sequence then goes on); and no Send gives up before the cancellation *)
   Theorem C03_sequences_ok : forall sched,
     let s := run M upd cres (init_state M m0 init_cmd scripts) sched in
-    sequences_ok cres (c_log s) = true.
+    sequences_ok cres (c_log s) = true /\ no_drop_before_cancel (c_log s) = true.
   Proof. exact (C03_sequences_ok_proof M upd cres m0 init_cmd scripts). Qed.
+
+  (* the invariant behind no_drop_before_cancel: the context is cancelled exactly when ECancel has been logged
+     (and LbGiveUp, the only step that logs EDrop, needs the cancelled context) *)
+  Theorem C03_cancel_logged : forall sched,
+    let s := run M upd cres (init_state M m0 init_cmd scripts) sched in
+    c_ctx s = true <-> In ECancel (c_log s).
+  Proof. exact (C03_cancel_logged_proof M upd cres m0 init_cmd scripts). Qed.
 
   (* the bookkeeping behind 1: one sequence goroutine per sequence message that reached Update, and no
      event is attributed to a sequence goroutine that does not exist *)
@@ -33,10 +41,26 @@ Section C03.
   Proof. exact (C03_seq_threads_proof M upd cres m0 init_cmd scripts). Qed.
 
   (* 2. the order statement in plain terms: between two consecutive starts (c1, then c2) of sequence
-     goroutine k, the result of c1 was received by the loop: its message (nil included), or, when c1 returned
-     a batch, the message of every one of the batch's non-nil members *)
+     goroutine k, the result of c1 got through - received by the loop, or dropped by a Send that gave up after
+     the cancellation: its message (nil included), or, when c1 returned a batch, the message of every one of
+     the batch's non-nil members *)
   Theorem C03_next_after_receipt : forall sched,
     let s := run M upd cres (init_state M m0 init_cmd scripts) sched in
+    forall k l1 c1 l1' c2 l2,
+      c_log s = l1 ++ EStart (WSeq k) c1 :: l1' ++ EStart (WSeq k) c2 :: l2 ->
+      (forall c, ~ In (EStart (WSeq k) c) l1') ->
+      match cres c1 with
+      | MBatch cs => forall j cj, nth_error (somes cs) j = Some cj ->
+                       In (ERecv (WGrp k j) (cres cj)) l1' \/ In (EDrop (WGrp k j) (cres cj)) l1'
+      | m => In (ERecv (WSeq k) m) l1' \/ In (EDrop (WSeq k) m) l1'
+      end.
+  Proof. exact (C03_next_after_receipt_proof M upd cres m0 init_cmd scripts). Qed.
+
+  (* 2, as long as the program has not begun terminating (no cancellation so far): the next element starts only
+     after the loop has RECEIVED the previous element's message (every message of its batch) *)
+  Theorem C03_next_after_receipt_running : forall sched,
+    let s := run M upd cres (init_state M m0 init_cmd scripts) sched in
+    ~ In ECancel (c_log s) ->
     forall k l1 c1 l1' c2 l2,
       c_log s = l1 ++ EStart (WSeq k) c1 :: l1' ++ EStart (WSeq k) c2 :: l2 ->
       (forall c, ~ In (EStart (WSeq k) c) l1') ->
@@ -44,30 +68,45 @@ Section C03.
       | MBatch cs => forall j cj, nth_error (somes cs) j = Some cj -> In (ERecv (WGrp k j) (cres cj)) l1'
       | m => In (ERecv (WSeq k) m) l1'
       end.
-  Proof. exact (C03_next_after_receipt_proof M upd cres m0 init_cmd scripts). Qed.
+  Proof. exact (C03_next_after_receipt_running_proof M upd cres m0 init_cmd scripts). Qed.
 
-  (* 3. the messages of one sequence reach the loop (hence Update) in sequence order: the elements started
-     by goroutine k are, in order, a prefix of the non-nil elements of its sequence message, and the messages
-     taken from goroutine k itself are exactly the non-batch results of the started elements, in that order,
-     all but at most the last one (still running or blocked in Send) *)
+  (* 3. the messages of one sequence leave its goroutine in sequence order: the elements started by goroutine
+     k are, in order, a prefix of the non-nil elements of its sequence message, and the messages goroutine k
+     itself got rid of (received by the loop, or dropped after the cancellation) are exactly the non-batch
+     results of the started elements, in that order, all but at most the last one (still running or blocked
+     in Send) *)
   Theorem C03_update_order : forall sched,
     let s := run M upd cres (init_state M m0 init_cmd scripts) sched in
     forall k cs, nth_error (seq_msgs (c_log s)) k = Some cs ->
       exists rest pending,
         seq_starts k (c_log s) ++ somes rest = somes cs /\
-        recv_from (WSeq k) (c_log s) ++ pending = plain cres (seq_starts k (c_log s)) /\
+        sent_from (WSeq k) (c_log s) ++ pending = plain cres (seq_starts k (c_log s)) /\
         length pending <= 1.
   Proof. exact (C03_update_order_proof M upd cres m0 init_cmd scripts). Qed.
 
+  (* 3, as long as the program has not begun terminating: all of them reached the loop (hence Update), in
+     sequence order *)
+  Theorem C03_update_order_running : forall sched,
+    let s := run M upd cres (init_state M m0 init_cmd scripts) sched in
+    ~ In ECancel (c_log s) ->
+    forall k cs, nth_error (seq_msgs (c_log s)) k = Some cs ->
+      exists rest pending,
+        seq_starts k (c_log s) ++ somes rest = somes cs /\
+        recv_from (WSeq k) (c_log s) ++ pending = plain cres (seq_starts k (c_log s)) /\
+        length pending <= 1.
+  Proof. exact (C03_update_order_running_proof M upd cres m0 init_cmd scripts). Qed.
+
   (* 4. nothing in a sequence stalls it, in ANY state: a sequence goroutine that is not done can always take
      its next step - look at the next entry (a nil entry is just dropped), return from its command, hand a
-     result (nil included) to an idle loop, go on once all members of a batch are through *)
+     result (nil included) to an idle loop, go on once all members of a batch are through, give up a blocked
+     Send once the context is cancelled (so a loop that has exited does not stall it either) *)
   Theorem C03_nil_does_not_stall : forall (s : cstate M) k t, nth_error (c_seqs s) k = Some t ->
     (s_phase t = SNext -> s_done t = false -> step M upd cres s (LbSeqStep k) <> None) /\
     (forall c, s_phase t = SRunning c -> step M upd cres s (LbSeqFinish k) <> None) /\
     (forall c m, s_phase t = SSending c m -> c_loop s = LIdle -> step M upd cres s (LbRecv (WSeq k)) <> None) /\
     (forall c ms, s_phase t = SGroup c ms -> s_done t = false -> all_done ms = true ->
-                  step M upd cres s (LbSeqStep k) <> None).
+                  step M upd cres s (LbSeqStep k) <> None) /\
+    (forall c m, s_phase t = SSending c m -> c_ctx s = true -> step M upd cres s (LbGiveUp (WSeq k)) <> None).
   Proof. exact (C03_nil_does_not_stall_proof M upd cres). Qed.
 
   (* 4(d) in every reachable state, where "not done" need not be assumed: a goroutine waiting for a group is
@@ -80,16 +119,22 @@ Section C03.
 End C03.
 
 Print Assumptions C03_sequences_ok.
+Print Assumptions C03_cancel_logged.
 Print Assumptions C03_seq_threads.
 Print Assumptions C03_next_after_receipt.
+Print Assumptions C03_next_after_receipt_running.
 Print Assumptions C03_update_order.
+Print Assumptions C03_update_order_running.
 Print Assumptions C03_nil_does_not_stall.
 Print Assumptions C03_group_done_steps.
 
 (* ------------------------------------------------------------------ *)
-(* a concrete run: a sequence of 5 entries - command 1 (plain result), a nil entry, command 0 (returns nil),
-   command 2 (returns a batch with members 1, 4, 0 and a nil entry), command 4 - runs to completion while two
-   senders and a dispatcher command keep the loop busy; 75 labels, 4 of them not enabled when scheduled *)
+(* a concrete run: Init returns command 7 (handed over by the forwarder goroutine: LbHandInit); a sequence of 5
+   entries - command 1 (plain result), a nil entry, command 0 (returns nil), command 2 (returns a batch with
+   members 1, 4, 0 and a nil entry), command 4 - runs to completion while two senders and the dispatcher's
+   commands keep the loop busy; the context is cancelled (LbCancel) while the group is awaited: member 2's nil
+   result is dropped (LbGiveUp (WGrp 0 2)), member 0's is still received; the loop exits, the last element's
+   result is dropped (LbGiveUp (WSeq 0)), and the sequence ends.  62 labels, 7 of them not enabled when scheduled *)
 Definition ex_upd (m : nat) (x : msg) : nat * option cmdid :=
   (S m, match x with MUser 10 => Some 7 | _ => None end).
 Definition ex_cres (c : cmdid) : msg :=
@@ -101,7 +146,7 @@ Definition ex_scripts : list (list msg) :=
    [MUser 10; MUser 11; MNil; MUser 12; MUser 13; MUser 14]].
 Definition ex_cyc : list label := [LbProcess; LbHand; LbView].
 Definition ex_sched : list label :=
-  [LbHand; LbView; LbRecv (WSender 0)] ++ ex_cyc ++
+  [LbHandInit (* Init's command 7: dispatcher goroutine 0 *); LbView; LbRecv (WSender 0)] ++ ex_cyc ++
   [LbSeqStep 0 (* starts 1 *); LbRecv (WSender 1)] ++ ex_cyc ++
   [LbSeqStep 0 (* not enabled: running *); LbSeqFinish 0; LbCmdFinish 0; LbRecv (WSeq 0)] ++ ex_cyc ++
   [LbSeqStep 0 (* nil entry dropped *); LbRecv (WSender 1); LbSeqStep 0 (* starts 0 *)] ++ ex_cyc ++
@@ -109,33 +154,39 @@ Definition ex_sched : list label :=
   [LbRecv (WSeq 0) (* the nil result *); LbSeqStep 0 (* starts 2 *); LbProcess;
    LbSeqFinish 0 (* returns the batch: 3 members *); LbRecv (WSender 1) (* a nil message *); LbProcess;
    LbGrpFinish 0 1; LbSeqStep 0 (* not enabled: group open *); LbRecv (WGrp 0 1)] ++ ex_cyc ++
-  [LbRecv (WSender 1)] ++ ex_cyc ++
-  [LbGrpFinish 0 2; LbGrpFinish 0 0; LbRecv (WGrp 0 2) (* nil *); LbProcess;
-   LbSeqStep 0 (* not enabled: member 0 not yet received *); LbRecv (WSender 0)] ++ ex_cyc ++
-  [LbRecv (WGrp 0 0)] ++ ex_cyc ++
-  [LbSeqStep 0 (* group through *); LbRecv (WSender 1)] ++ ex_cyc ++
-  [LbSeqStep 0 (* starts 4 *); LbSeqFinish 0; LbRecv (WSeq 0)] ++ ex_cyc ++
-  [LbSeqStep 0 (* end of the sequence *); LbRecv (WSender 1)] ++ ex_cyc ++
-  [LbSeqStep 0 (* not enabled: done *)].
-Definition ex_s : cstate nat := run nat ex_upd ex_cres (init_state nat 0 None ex_scripts) ex_sched.
+  [LbGrpFinish 0 2; LbGiveUp (WGrp 0 2) (* not enabled: not cancelled *); LbCancel; LbCancel (* not enabled *);
+   LbGiveUp (WGrp 0 2) (* the nil result of member 2 is dropped *); LbGrpFinish 0 0;
+   LbSeqStep 0 (* not enabled: member 0 not yet through *); LbRecv (WGrp 0 0)] ++ ex_cyc ++
+  [LbSeqStep 0 (* group through *); LbSeqStep 0 (* starts 4 *); LbSeqFinish 0; LbLoopExit;
+   LbRecv (WSeq 0) (* not enabled: the loop has exited *); LbGiveUp (WSeq 0) (* dropped *);
+   LbSeqStep 0 (* end of the sequence *); LbSeqStep 0 (* not enabled: done *); LbDispExit; LbGiveUp (WSender 1)].
+Definition ex_s : cstate nat := run nat ex_upd ex_cres (init_state nat 0 (Some 7) ex_scripts) ex_sched.
 
 Example C03_example :
-  length ex_sched = 75 /\
-  length (c_log ex_s) = 57 /\
+  length ex_sched = 62 /\
+  length (c_log ex_s) = 48 /\
   sequences_ok ex_cres (c_log ex_s) = true /\
+  no_drop_before_cancel (c_log ex_s) = true /\
   seq_msgs (c_log ex_s) = [[Some 1; None; Some 0; Some 2; Some 4]] /\
   c_seqs ex_s = [{| s_rest := []; s_phase := SNext; s_done := true |}] /\
-  c_senders ex_s = [[]; []] /\
+  c_senders ex_s = [[MUser 5]; [MUser 13; MUser 14]] /\
+  (c_ctx ex_s, c_disp ex_s, c_ifw ex_s, c_loop ex_s) = (true, false, None, LExited) /\
   filter (of_seq 0) (c_log ex_s) =
     [EStart (WSeq 0) 1; EEnd (WSeq 0) 1; ERecv (WSeq 0) (MUser 101);
      EStart (WSeq 0) 0; EEnd (WSeq 0) 0; ERecv (WSeq 0) MNil;
      EStart (WSeq 0) 2; EEnd (WSeq 0) 2; EStart (WGrp 0 0) 1; EStart (WGrp 0 1) 4; EStart (WGrp 0 2) 0;
-     EEnd (WGrp 0 1) 4; ERecv (WGrp 0 1) (MUser 104); EEnd (WGrp 0 2) 0; EEnd (WGrp 0 0) 1;
-     ERecv (WGrp 0 2) MNil; ERecv (WGrp 0 0) (MUser 101);
-     EStart (WSeq 0) 4; EEnd (WSeq 0) 4; ERecv (WSeq 0) (MUser 104)] /\
-  (* the predicate is not trivially true: the same log without the receipt of the last group member, or
-     without the receipt of the nil result, is rejected *)
-  sequences_ok ex_cres (filter (fun e => match e with ERecv (WGrp 0 0) _ => false | _ => true end) (c_log ex_s)) = false /\
-  sequences_ok ex_cres (filter (fun e => match e with ERecv (WSeq 0) MNil => false | _ => true end) (c_log ex_s)) = false.
+     EEnd (WGrp 0 1) 4; ERecv (WGrp 0 1) (MUser 104); EEnd (WGrp 0 2) 0; EDrop (WGrp 0 2) MNil;
+     EEnd (WGrp 0 0) 1; ERecv (WGrp 0 0) (MUser 101);
+     EStart (WSeq 0) 4; EEnd (WSeq 0) 4; EDrop (WSeq 0) (MUser 104)] /\
+  filter (fun e => match e with EHand _ | EStart (WCmd _) _ | ECancel | EDrop _ _ | EExit => true | _ => false end) (c_log ex_s) =
+    [EHand 7; EStart (WCmd 0) 7; EHand 7; EStart (WCmd 1) 7; ECancel; EDrop (WGrp 0 2) MNil; EExit;
+     EDrop (WSeq 0) (MUser 104); EDrop (WSender 1) (MUser 12)] /\
+  sent_from (WSeq 0) (c_log ex_s) = [MUser 101; MNil; MUser 104] /\
+  recv_from (WSeq 0) (c_log ex_s) = [MUser 101; MNil] /\
+  (* the predicates are not trivially true: the same log without the drop of the group member's result, or
+     without the receipt of the nil result, is rejected; so is the log without the cancellation *)
+  sequences_ok ex_cres (filter (fun e => match e with EDrop (WGrp 0 2) _ => false | _ => true end) (c_log ex_s)) = false /\
+  sequences_ok ex_cres (filter (fun e => match e with ERecv (WSeq 0) MNil => false | _ => true end) (c_log ex_s)) = false /\
+  no_drop_before_cancel (filter (fun e => match e with ECancel => false | _ => true end) (c_log ex_s)) = false.
 Proof. vm_compute. repeat split. Qed.
 Print Assumptions C03_example.
